@@ -339,3 +339,108 @@ func genTScenario(t *rapid.T) *TScenario {
 		Conns:  rapid.SliceOfN(rapid.Custom(genTConn), rapid.SampledFrom([]int{1, 2, 2, 3}).Draw(t, "min-conns"), 5).Draw(t, "conns"),
 	}
 }
+
+// ---------------------------------------------------------------------------
+// part "real"
+// ---------------------------------------------------------------------------
+
+func genRConn(t *rapid.T) RConn {
+	c := RConn{Mode: rapid.SampledFrom([]string{"refuse", "eof", "recv-err", "data", "data", "data"}).Draw(t, "mode")}
+	if c.Mode == "data" {
+		c.N = rapid.IntRange(0, 3).Draw(t, "n")
+		c.Sync = rapid.IntRange(0, 3).Draw(t, "sync") != 0
+		c.End = rapid.SampledFrom([]string{"block", "block", "err", "eof"}).Draw(t, "end")
+	}
+	return c
+}
+
+func genRStep(t *rapid.T) RStep {
+	s := RStep{Kind: rapid.SampledFrom([]string{"subscribe", "subscribe", "subscribe", "subscribe", "cancel", "cancel", "close"}).Draw(t, "kind")}
+	s.After = rapid.SampledFrom([]string{"", "begin", "begin", "sync", "sync", "disc", "disc", "trap", "trap", "ret"}).Draw(t, "after")
+	s.N = rapid.IntRange(1, 3).Draw(t, "n")
+	if s.After != "disc" {
+		s.N = 0
+	}
+	if s.Kind != "subscribe" {
+		return s
+	}
+	switch rapid.IntRange(0, 9).Draw(t, "query-kind") {
+	case 0, 1, 2, 3:
+	case 9:
+		s.Query = "dead"
+	default:
+		s.Query = rapid.SampledFrom(realBadKinds).Draw(t, "bad-path")
+	}
+	s.Cancelled = rapid.IntRange(0, 11).Draw(t, "cancelled-context") == 11
+	s.Trap = rapid.SampledFrom([]string{"", "", "", "pre-dial", "post-dial", "post-dial", "post-rpc", "post-rpc"}).Draw(t, "trap")
+	if s.Trap != "" {
+		s.TrapAttempt = rapid.SampledFrom([]int{0, 0, 0, 1, 2}).Draw(t, "trap-attempt")
+		s.TrapAct = rapid.SampledFrom([]string{"cancel", "cancel", "close", "linger"}).Draw(t, "trap-act")
+		s.TrapLinger = rapid.Bool().Draw(t, "trap-linger") && s.TrapAct == "cancel"
+	}
+	return s
+}
+
+// genReal draws one case of part "real".
+func genReal(t *rapid.T) *RScenario {
+	sc := &RScenario{}
+	sc.Client = rapid.SampledFrom([]string{"base", "base", "cache"}).Draw(t, "client")
+	sc.Plain = rapid.IntRange(0, 3).Draw(t, "plain") == 3
+	sc.NilCallbacks = rapid.IntRange(0, 11).Draw(t, "nil-callbacks") == 11 && !sc.Plain
+	sc.Conns = rapid.SliceOfN(rapid.Custom(genRConn), 0, 4).Draw(t, "conns")
+	if len(sc.Conns) == 0 {
+		sc.Conns = nil
+	}
+	sc.Steps = rapid.SliceOfN(rapid.Custom(genRStep), 1, 6).Draw(t, "steps")
+	if rapid.IntRange(0, 5).Draw(t, "subscribe-first") != 0 && sc.Steps[0].Kind != "subscribe" {
+		sc.Steps[0] = RStep{Kind: "subscribe", Query: rapid.SampledFrom(append([]string{"", ""}, realBadKinds...)).Draw(t, "first-query")}
+	}
+	// Make the steps fit the state the sequence is in (the runner skips what
+	// does not): no Subscribe while the previous one is open, waits that the
+	// latest Subscribe call can satisfy.
+	var cur *RStep
+	open, closed := false, false
+	for i := range sc.Steps {
+		s := &sc.Steps[i]
+		if s.Kind == "subscribe" && open {
+			*s = RStep{Kind: "cancel", After: s.After, N: s.N}
+		}
+		switch {
+		case cur == nil:
+			s.After, s.N = "", 0
+		case s.After == "sync" && (cur.Query != "" || !open):
+			s.After = "disc"
+		case s.After == "trap" && (cur.Trap == "" || !open):
+			s.After = "begin"
+		}
+		if s.After == "begin" && !open {
+			s.After = "ret"
+		}
+		// a query path the request builder rejects: mostly let the set-up fail
+		// (a few times, for a client that retries) before the next step
+		if cur != nil && open && cur.Query != "" && cur.Query != "dead" && (s.After == "" || s.After == "begin") && rapid.IntRange(0, 2).Draw(t, "let-it-fail") != 0 {
+			s.After, s.N = "disc", rapid.IntRange(1, 3).Draw(t, "failures")
+		}
+		if s.After == "disc" && (sc.Plain || sc.NilCallbacks || !open) {
+			s.After = "ret"
+		}
+		if s.After == "disc" && s.N == 0 {
+			s.N = 1
+		}
+		if s.After != "disc" {
+			s.N = 0
+		}
+		switch s.Kind {
+		case "subscribe":
+			cur = s
+			// a trap is a stop action of its own, but it may never fire
+			open = !s.Cancelled && (sc.Plain || !closed)
+		case "cancel":
+			open = false
+		case "close":
+			closed = true
+			open = open && sc.Plain
+		}
+	}
+	return sc
+}
